@@ -487,6 +487,8 @@ package binary
 //@   ensures(name) err == nil ==> forall(k, 0, len(eh.Name), wout(sw.writer)[q0 + 8 + k] == eh.Name[k])
 //@   ensures(seqid) err == nil ==> int32(be32at(wout(sw.writer), q0 + 8 + len(eh.Name))) == eh.SeqID
 //@   ensures(prefix) prefixKept(sw)
+//@   ensures(valid) validSW(sw)
+//@   ensures(mono) wlen(sw.writer) >= q0
 
 //@ contract (*StreamWriter).WriteLegacyEnvelopeBegin
 //@   props C12
@@ -500,6 +502,8 @@ package binary
 //@   ensures(type) err == nil ==> int8(wout(sw.writer)[q0 + 4 + len(eh.Name)]) == eh.Type
 //@   ensures(seqid) err == nil ==> int32(be32at(wout(sw.writer), q0 + 5 + len(eh.Name))) == eh.SeqID
 //@   ensures(prefix) prefixKept(sw)
+//@   ensures(valid) validSW(sw)
+//@   ensures(mono) wlen(sw.writer) >= q0
 
 //@ contract (*StreamReader).readStrictEnvelope
 //@   props C12
@@ -621,6 +625,7 @@ package binary
 //@   let v = int32(be32at(rin(sr.(*StreamReader).reader), rpos(sr.(*StreamReader).reader)))
 //@   modifies sr.(*StreamReader).buffer, rpos(sr.(*StreamReader).reader)
 //@   ensures(type) err == nil ==> result.Type == et
+//@   ensures(strictver) err == nil && v <= 0 ==> uint32(v) & 4294901760 == 2147549184
 //@   ensures(strictseq) err == nil && v <= 0 ==> result.SeqID == int32(be32at(rin(sr.(*StreamReader).reader), p0 + 8 + len(result.Name))) && int64(int32(be32at(rin(sr.(*StreamReader).reader), p0 + 4))) == len(result.Name)
 //@   ensures(strictname) err == nil && v <= 0 ==> forall(k, 0, len(result.Name), result.Name[k] == rin(sr.(*StreamReader).reader)[p0 + 8 + k])
 //@   ensures(legacyseq) err == nil && v > 0 ==> len(result.Name) == int64(v) && result.SeqID == int32(be32at(rin(sr.(*StreamReader).reader), p0 + 5 + int64(v)))
@@ -640,9 +645,17 @@ package binary
 //@   props C12
 //@   let b0 = rin(r)[0]
 //@   let avail = rlen(r)
+//@   let a = rin(r)
+//@   let v = int32(be32at(rin(r), 0))
+//@   modifies all
 //@   ensures(legacy) err == nil && avail >= 2 && b0 == 0 ==> typeis(result1, *EnvelopeV0Responder)
 //@   ensures(versioned) err == nil && avail >= 2 && b0 & 128 != 0 ==> typeis(result1, *EnvelopeV1Responder)
 //@   ensures(bare) err == nil && avail >= 2 && b0 != 0 && b0 & 128 == 0 ==> typeis(result1, *noEnvelopeResponder)
+//@   ensures(legacyecho) err == nil && avail >= 2 && b0 == 0 ==> len(result1.(*EnvelopeV0Responder).Name) == int64(v) && forall(k, 0, int64(v), result1.(*EnvelopeV0Responder).Name[k] == a[4 + k]) && result1.(*EnvelopeV0Responder).SeqID == int32(be32at(a, 5 + int64(v)))
+//@   ensures(legacytype) err == nil && avail >= 2 && b0 == 0 ==> int8(a[4 + int64(v)]) == et
+//@   ensures(versionedecho) err == nil && avail >= 2 && b0 & 128 != 0 ==> len(result1.(*EnvelopeV1Responder).Name) == int64(int32(be32at(a, 4))) && forall(k, 0, len(result1.(*EnvelopeV1Responder).Name), result1.(*EnvelopeV1Responder).Name[k] == a[8 + k]) && result1.(*EnvelopeV1Responder).SeqID == int32(be32at(a, 8 + len(result1.(*EnvelopeV1Responder).Name)))
+//@   ensures(versionedtype) err == nil && avail >= 2 && b0 & 128 != 0 ==> int8(v) == et
+//@   ensures(body) err == nil ==> result0.typ == 12
 
 // ---------------------------------------------------------------------------
 // Tree-level writer (writer.go, C02): WriteValue delegates every scalar to the
@@ -1052,11 +1065,89 @@ package binary
 //@   ensures(legacyseq) err == nil && v > 0 ==> result0.SeqID == int32(be32at(a, 5 + int64(v)))
 //@   ensures(body) err == nil ==> result0.Value.typ == 12
 
-// Whole-envelope and whole-value decoding through the random-access reader:
-// only the heap effect of the Protocol-level wrappers is assumed here.
+// Value-based whole-message API (C12): the same functions of the bytes as the
+// random-access readers / tree writer they delegate to.
+//@ contract NewReader
+//@   inline
+//@ contract BorrowWriter
+//@   props C02 C12
+//@   modifies nothing
+//@   ensures result != nil && fresh(result) && result.sw != nil && fresh(result.sw) && result.sw.writer == w
+//@ contract ReturnWriter
+//@   trusted
+//@   modifies w.sw
+//@ contract returnStreamWriter
+//@   trusted
+//@   modifies nothing
+
+//@ contract (*Writer).WriteEnveloped
+//@   props C12
+//@   requires bwValid(bw) && e.Type >= 0 && len(e.Name) <= 2147483647
+//@   let w = bw.sw.writer
+//@   let q0 = wlen(bw.sw.writer)
+//@   let sw0 = bw.sw
+//@   modifies all
+//@   ensures(kept) unchanged(Writer, sw) && unchanged(StreamWriter, writer) && validSW(sw0)
+//@   ensures(prefix) wlen(w) >= q0 && forall(j, 0, q0, wout(w)[j] == old(wout(w))[j])
+//@   ensures(version) err == nil ==> be32at(wout(w), q0) & 4294901760 == 2147549184
+//@   ensures(type) err == nil ==> int8(be32at(wout(w), q0)) == e.Type
+//@   ensures(name) err == nil ==> int64(int32(be32at(wout(w), q0 + 4))) == len(e.Name) && forall(k, 0, len(e.Name), wout(w)[q0 + 8 + k] == e.Name[k])
+//@   ensures(seqid) err == nil ==> int32(be32at(wout(w), q0 + 8 + len(e.Name))) == e.SeqID
+//@   ensures(len) err == nil ==> wlen(w) >= q0 + 12 + len(e.Name)
+
+//@ contract (*Writer).WriteLegacyEnveloped
+//@   props C12
+//@   requires bwValid(bw) && len(e.Name) <= 2147483647
+//@   let w = bw.sw.writer
+//@   let q0 = wlen(bw.sw.writer)
+//@   let sw0 = bw.sw
+//@   modifies all
+//@   ensures(kept) unchanged(Writer, sw) && unchanged(StreamWriter, writer) && validSW(sw0)
+//@   ensures(prefix) wlen(w) >= q0 && forall(j, 0, q0, wout(w)[j] == old(wout(w))[j])
+//@   ensures(name) err == nil ==> int64(int32(be32at(wout(w), q0))) == len(e.Name) && forall(k, 0, len(e.Name), wout(w)[q0 + 4 + k] == e.Name[k])
+//@   ensures(type) err == nil ==> int8(wout(w)[q0 + 4 + len(e.Name)]) == e.Type
+//@   ensures(seqid) err == nil ==> int32(be32at(wout(w), q0 + 5 + len(e.Name))) == e.SeqID
+//@   ensures(len) err == nil ==> wlen(w) >= q0 + 9 + len(e.Name)
+
+// Value-based responders echo name and sequence id in their own framing.
+//@ contract (EnvelopeV1Responder).EncodeResponse
+//@   props C12
+//@   requires wlen(w) >= 0 && wlen(w) <= 4611686018427387904 && t >= 0 && len(r.Name) <= 2147483647
+//@   let q0 = wlen(w)
+//@   modifies all
+//@   ensures(version) err == nil ==> be32at(wout(w), q0) & 4294901760 == 2147549184
+//@   ensures(type) err == nil ==> int8(be32at(wout(w), q0)) == t
+//@   ensures(name) err == nil ==> int64(int32(be32at(wout(w), q0 + 4))) == len(r.Name) && forall(k, 0, len(r.Name), wout(w)[q0 + 8 + k] == r.Name[k])
+//@   ensures(seqid) err == nil ==> int32(be32at(wout(w), q0 + 8 + len(r.Name))) == r.SeqID
+
+//@ contract (EnvelopeV0Responder).EncodeResponse
+//@   props C12
+//@   requires wlen(w) >= 0 && wlen(w) <= 4611686018427387904 && len(r.Name) <= 2147483647
+//@   let q0 = wlen(w)
+//@   modifies all
+//@   ensures(name) err == nil ==> int64(int32(be32at(wout(w), q0))) == len(r.Name) && forall(k, 0, len(r.Name), wout(w)[q0 + 4 + k] == r.Name[k])
+//@   ensures(type) err == nil ==> int8(wout(w)[q0 + 4 + len(r.Name)]) == t
+//@   ensures(seqid) err == nil ==> int32(be32at(wout(w), q0 + 5 + len(r.Name))) == r.SeqID
+
 //@ contract (*Protocol).DecodeEnveloped
-//@   trusted
-//@   modifies nothing
+//@   props C12
+//@   let a = rin(r)
+//@   let v = int32(be32at(rin(r), 0))
+//@   modifies all
+//@   ensures(strictversion) err == nil && v <= 0 ==> uint32(v) & 4294901760 == 2147549184
+//@   ensures(stricttype) err == nil && v <= 0 ==> result0.Type == int8(v)
+//@   ensures(strictname) err == nil && v <= 0 ==> len(result0.Name) == int64(int32(be32at(a, 4))) && forall(k, 0, len(result0.Name), result0.Name[k] == a[8 + k])
+//@   ensures(strictseq) err == nil && v <= 0 ==> result0.SeqID == int32(be32at(a, 8 + len(result0.Name)))
+//@   ensures(legacyname) err == nil && v > 0 ==> len(result0.Name) == int64(v) && forall(k, 0, len(result0.Name), result0.Name[k] == a[4 + k])
+//@   ensures(legacytype) err == nil && v > 0 ==> result0.Type == int8(a[4 + int64(v)])
+//@   ensures(legacyseq) err == nil && v > 0 ==> result0.SeqID == int32(be32at(a, 5 + int64(v)))
+//@   ensures(body) err == nil ==> result0.Value.typ == 12
+
 //@ contract (*Protocol).Decode
-//@   trusted
-//@   modifies nothing
+//@   props C02 C12
+//@   let a = rin(r)
+//@   modifies all
+//@   ensures(typ) err == nil ==> result0.typ == t && knownty(t)
+//@   ensures(i32) err == nil && t == 8 ==> int32(result0.tnumber) == int32(be32at(a, 0))
+//@   ensures(i64) err == nil && t == 10 ==> int64(result0.tnumber) == int64(be64at(a, 0))
+//@   ensures(binlen) err == nil && t == 11 ==> len(result0.tbinary) == int64(int32(be32at(a, 0)))
